@@ -23,6 +23,7 @@ import (
 	"sync"
 
 	"google.golang.org/grpc"
+	"google.golang.org/grpc/status"
 )
 
 type key int
@@ -116,9 +117,28 @@ func (cs *gcpClientStream) SendMsg(m interface{}) error {
 
 func (cs *gcpClientStream) RecvMsg(m interface{}) error {
 	// If RecvMsg is called before SendMsg, it should wait until cs.ClientStream
-	// is initialized or the initialization failed.
+	// is initialized, the initialization failed or the context of the call is done.
 	cs.Lock()
+	var stop chan struct{}
 	for cs.initStreamErr == nil && cs.ClientStream == nil {
+		if err := cs.ctx.Err(); err != nil {
+			cs.Unlock()
+			return status.FromContextError(err).Err()
+		}
+		if stop == nil {
+			// Wake up this wait when the context is done: SendMsg may never be called.
+			stop = make(chan struct{})
+			defer close(stop)
+			go func() {
+				select {
+				case <-cs.ctx.Done():
+					cs.Lock()
+					cs.cond.Broadcast()
+					cs.Unlock()
+				case <-stop:
+				}
+			}()
+		}
 		cs.cond.Wait()
 	}
 	if err := cs.initStreamErr; err != nil {
